@@ -44,6 +44,14 @@ def finding_key(req, obs, detail):
         # tree keeps a `<` and a `>` operator outside every expression-or-type position and prints `>` in front of `(`
         if key.startswith(("tree-differs", "rejected-by-parser")) and " lt-gt-paren" in marks:
             family = True
+        # … or, whatever the shrinker made of it (its budget can end on a tree that still has template arguments of its
+        # own with relational operators inside): the re-read tree has MORE calls with template arguments than the original -
+        # a template call was invented.  (A formatter that prints a template argument bare - seeded C09-6 and its siblings -
+        # loses or keeps template calls, it never gains one.)
+        tcall = re.compile(r"\(\((?:E|B|T) \(")
+        if key.startswith("tree-differs") and " ==> " in (obs or ""):
+            if len(tcall.findall(obs.split(" ==> ", 1)[1])) > len(tcall.findall(req)):
+                family = True
         if family:
             # two or more entries of an argument list, an earlier one with a bare `<`, a later one with a bare `> (`
             key = known_lt_gt_list if key.startswith("tree-differs[list-length]") else known_lt_gt
@@ -192,7 +200,7 @@ SPEC = {
         "and a `>` operator outside every expression-or-type position and either reads back with invented template arguments or "
         "prints a lone `>` directly before `(`; two class keys (operand form, and the comma-list form `f(a < b, c > (d))` whose "
         "argument count changes); a bare relational operator inside a template argument is never put into this class",
-        "random trees of the template-args stream are redrawn when their printed text nests `(` / `[` deeper than 7: the real "
+        "random trees of the template-args stream are redrawn when their printed text nests `(` / `[` deeper than 6: the real "
         "parser (and the model) re-read the inside of every `(` and `name <` twice, minutes per tree at a dozen levels; the "
         "systematic catalogue is not bounded",
         "an expression-or-type position is compared on what syntax can tell: `Either(expr, type)` equals `Expression(expr)` "
